@@ -417,6 +417,8 @@ def run_verus_file(uid, gen_text, obls, workdir, timeout=600, rlimit=100, type_m
             stub = (f"\n// R15e: `{ty}::{name}`: a copy is the same value\n"
                     f"impl {ty} {{ #[verifier::external_body] pub fn {name}(&self) -> (r: {ty}) ensures r == *self {{ unimplemented!() }} }}\n")
         elif m and (m.group(1), m.group(2)) not in added and re.search(r"\.\s*" + m.group(1) + r"\s*\(\s*\)", gen_text):
+            if m.group(1) not in helpers() and find_helper(os.environ.get("VERIF_REPO", "/repo"), m.group(1)) is not None:
+                break       # R14b first: the method's body is inlined by the driver and the unit built again
             name, ty = m.group(1), m.group(2)
             added.append((name, ty))
             fallible = re.search(r"\.\s*" + name + r"\s*\(\s*\)\s*\?", gen_text) is not None
